@@ -134,9 +134,11 @@ static void cappend(const char *s, size_t n) {
 	memcpy(cbuf + clen, s, n); clen += n; cbuf[clen] = 0;
 }
 void res_printf(const char *fmt, ...) {
-	char tmp[8192]; va_list ap; va_start(ap, fmt); int n = vsnprintf(tmp, sizeof tmp, fmt, ap); va_end(ap);
-	if (n < 0) return; if ((size_t) n >= sizeof tmp) n = sizeof tmp - 1;
-	cappend(tmp, (size_t) n);
+	char tmp[2048]; va_list ap; va_start(ap, fmt); int n = vsnprintf(tmp, sizeof tmp, fmt, ap); va_end(ap);
+	if (n < 0) return;
+	if ((size_t) n < sizeof tmp) { cappend(tmp, (size_t) n); return; }
+	char *big = malloc((size_t) n + 1); va_start(ap, fmt); vsnprintf(big, (size_t) n + 1, fmt, ap); va_end(ap);
+	cappend(big, (size_t) n); free(big);
 }
 int res_nviol(void) { return nviol; }
 void res_violation(const char *cls, const char *fmt, ...) {
